@@ -38,7 +38,8 @@ inductive Kind where
   | normal        -- `pm.Normal`
   | fcm           -- `FixedCompanionMass`
   | otherRV       -- any other random variable (Uniform, HalfNormal, StudentT, TruncatedNormal, ...)
-  | nonRV         -- expression / `pm.Deterministic`: has an owner whose op is not a RandomVariable
+  | unnamedOp     -- owner op without `_print_name`: expression, `pm.Deterministic`, thejoker's own `UniformLog`
+                  -- (the error message formatting then dies with an AttributeError)
   | noOwner       -- constant or plain number wrapped with a unit: `owner is None`
   | notTensor     -- object without `.owner`
   deriving DecidableEq, Repr, Inhabited
@@ -93,7 +94,6 @@ def linearNames (p : Int) (q : Nat) : List Name := (linearReq p ++ offsetReq q).
 inductive ParsStatus where
   | ok            -- dict / list of named variables / single variable / `None` with an explicit model
   | invalid       -- not convertible to a dict and not an iterable of named variables -> ValueError
-  | crash         -- `pars=None, model=None` inside a model context: `model.named_vars` on `None`
   deriving DecidableEq, Repr, Inhabited
 
 structure PriorInput where
@@ -131,7 +131,7 @@ def checkLinear (env : List Param) : List Name → Except Err Unit
       | .normal | .fcm => checkLinear env rest
       | .otherRV => .error .value
       | .notTensor => .error .type
-      | .nonRV | .noOwner => .error .unspecified
+      | .unnamedOp | .noOwner => .error .unspecified
 
 def envOf (i : PriorInput) : List Param := i.pars ++ i.offsets
 
@@ -139,7 +139,6 @@ def validate (i : PriorInput) : Except Err (List Name) :=
   if i.modelOk = false then .error .type else
   match i.parsStatus with
   | .invalid => .error .value
-  | .crash => .error .unspecified
   | .ok =>
     match i.polyTrend with
     | none => .error .value
@@ -260,8 +259,8 @@ def assemble (d : DefaultInput) : Except Err PriorInput :=
   let user := d.userPars ++ sUser
   let sDim : Dim := match d.s with | .qty dim => dim | _ => Dim.vel 0
   let dflt (n : Name) (par : Param) : List Param := if hasName user n then [] else [par]
-  let nlDefaults := dflt .e ⟨.e, some Dim.one, .otherRV⟩ ++ dflt .omega ⟨.omega, some Dim.angle1, .nonRV⟩
-      ++ dflt .M0 ⟨.M0, some Dim.angle1, .nonRV⟩ ++ dflt .s ⟨.s, some sDim, .nonRV⟩
+  let nlDefaults := dflt .e ⟨.e, some Dim.one, .otherRV⟩ ++ dflt .omega ⟨.omega, some Dim.angle1, .unnamedOp⟩
+      ++ dflt .M0 ⟨.M0, some Dim.angle1, .unnamedOp⟩ ++ dflt .s ⟨.s, some sDim, .unnamedOp⟩
   if hasName user .P = false ∧ (d.pMin = .missing ∨ d.pMax = .missing) then .error .value else
   let nl := nlDefaults ++ dflt .P ⟨.P, some Dim.time1, .otherRV⟩
   -- default_linear_prior ----------------------------------------------------------------------
@@ -275,11 +274,17 @@ def assemble (d : DefaultInput) : Except Err PriorInput :=
   | none => .error .value
   | some p =>
   let svChecked : Except Err (Option (List (Name × QArg))) :=
-    if 0 < p ∧ hasName user (trendName 0) = false then (validateSigmaV d.sigmaV p).map some else .ok none
+    if 0 < p ∧ hasName user (trendName 0) = false then (validateSigmaV d.sigmaV p).map some
+    else .ok (match d.sigmaV with | .dict items => some items | _ => none)   -- used as given: only a dict can be indexed by name
   match svChecked with
   | .error e => .error e
   | .ok sv =>
   if hasName user .K = false ∧ (d.sigmaK0 = .missing ∨ d.p0 = .missing) then .error .value else
+  -- `FixedCompanionMass.dist` converts `P0` to the unit attached to `P`: fails if that is not a time unit
+  let pUnitBad : Bool := match lookup (nl ++ user) .P with
+    | some par => (match par.unit with | some un => decide (un ≠ Dim.time1) | none => false)
+    | none => false
+  if hasName user .K = false ∧ pUnitBad = true then .error .units else
   let kDefault := dflt .K ⟨.K, (match d.sigmaK0 with | .qty dim => some dim | _ => none), .fcm⟩
   match defaultTrend user sv (trendReq p) with
   | .error e => .error e
